@@ -568,3 +568,41 @@ Proof.
   intros Hb H. pose proof (ndopt_parse_wf bs r Hb H) as Hwf. split; [assumption|].
   intros b Hlen. destruct (ndopt_roundtrip r b Hwf Hlen) as (bs' & He & _ & Hp). eauto.
 Qed.
+
+(* ---------- facts about emitted options used by the NDISC message proofs ---------- *)
+
+Lemma ndopt_buffer_len_ge8 r : ndopt_wf r = true -> 8 <= ndopt_buffer_len r.
+Proof.
+  destruct r as [a|a|p|hd|m|ty l d]; cbn [ndopt_wf ndopt_buffer_len]; intros Hwf.
+  - pose proof (blen_nonneg a). unfold ndopt_div_ceil8. lia.
+  - pose proof (blen_nonneg a). unfold ndopt_div_ceil8. lia.
+  - zfold. lia.
+  - pose proof (blen_nonneg (ndrh_data hd)). unfold ndopt_div_ceil8, ipv6_buffer_len. zfold. lia.
+  - zfold. lia.
+  - bsplit. unfold ndopt_f_DATA. cbn [snd]. lia.
+Qed.
+
+(* the checked view and the length field of an emitted option followed by anything *)
+Lemma ndopt_bytes_head r rest : ndopt_wf r = true ->
+  ndopt_new_checked (ndopt_bytes r ++ rest) = Ok tt /\
+  exists l, ndopt_data_len (ndopt_bytes r ++ rest) = Ok l /\ l * 8 = ndopt_buffer_len r.
+Proof.
+  intros Hwf. pose proof (ndopt_parse_bytes r rest Hwf) as P. pose proof (ndopt_buffer_len_ge8 r Hwf) as G.
+  assert (C : ndopt_check_len (ndopt_bytes r ++ rest) = Ok tt).
+  { unfold ndopt_parse in P. destruct (ndopt_check_len _) as [[]| |]; cbn [obind] in P; try discriminate. reflexivity. }
+  assert (D : exists l, ndopt_data_len (ndopt_bytes r ++ rest) = Ok l /\ l * 8 = ndopt_buffer_len r).
+  { unfold ndopt_data_len. change wndiscopt_f_LENGTH with 1.
+    destruct r as [a|a|p|hd|m|ty l d]; cbn [ndopt_wf ndopt_bytes ndopt_buffer_len] in *.
+    - unfold ndopt_lladdr_bytes. cbn [app]. rewrite ndopt_get1. eexists; split; [reflexivity|].
+      unfold ndopt_div_ceil8. lia.
+    - unfold ndopt_lladdr_bytes. cbn [app]. rewrite ndopt_get1. eexists; split; [reflexivity|].
+      unfold ndopt_div_ceil8. lia.
+    - cbn [app]. rewrite ndopt_get1. eexists; split; [reflexivity|]. reflexivity.
+    - cbn [app]. rewrite ndopt_get1. eexists; split; [reflexivity|].
+      unfold ndopt_div_ceil8, ipv6_buffer_len. zfold. lia.
+    - cbn [app]. rewrite ndopt_get1. eexists; split; [reflexivity|]. reflexivity.
+    - cbn [app]. rewrite ndopt_get1. eexists; split; [reflexivity|]. reflexivity. }
+  split; [|exact D]. destruct D as (l & Dl & El).
+  unfold ndopt_new_checked. rewrite C, Dl. cbn [obind].
+  destruct (l =? 0) eqn:E; [bsplit; lia | reflexivity].
+Qed.
